@@ -18,12 +18,12 @@ VIOLATION_MSGS = (
   "possible arithmetic underflow/overflow",
   "possible division by zero",
   "decreases not satisfied",
-  "loop invariant",
+  "loop invariant not",
   "possible bit shift underflow/overflow",
   "recommendation not met",
   "failed to prove",
 )
-UNDECIDED_MSGS = ("rlimit", "Resource limit", "timed out", "not supported", "unsupported", "internal error", "panicked")
+UNDECIDED_MSGS = ("rlimit", "Resource limit", "timed out", "not supported", "unsupported", "internal error", "panicked", "cannot be", "unless #[verifier", "not allowed")
 
 
 class Unit:
